@@ -51,6 +51,8 @@ pub struct Avoid {
     pub local_surplus_values: bool,
     /// no local named `_`
     pub underscore_local: bool,
+    /// an object with an effectful __tostring is only interpolated as the last value of a string
+    pub interp_tostring_order: bool,
 }
 
 #[derive(Clone, Copy, Debug, PartialEq, Eq)]
@@ -329,11 +331,26 @@ impl<'a, 'b> Gen<'a, 'b> {
             2 => {
                 let ops = [BinOp::Add, BinOp::Sub, BinOp::Mul, BinOp::Div, BinOp::Mod, BinOp::Pow];
                 let mut op = ops[self.t.weighted(&[5, 4, 3, 2, 1, 1])];
-                if luau && self.t.bool(40) {
+                if luau && self.t.bool(if self.o.focus == Focus::Lowering { 90 } else { 40 }) {
                     op = BinOp::IDiv;
+                    self.stat("floor_div");
                 }
                 let a = self.e_num(d - 1);
-                let b = if matches!(op, BinOp::Mod | BinOp::IDiv | BinOp::Pow) { self.small_pos() } else { self.e_num(d - 1) };
+                let b = if op == BinOp::IDiv {
+                    match self.t.choose(7) {
+                        0 => un(UnOp::Neg, num(2.0)),
+                        1 => num(0.5),
+                        2 => num(3.0),
+                        3 => un(UnOp::Neg, num(0.25)),
+                        4 => num(0.0),
+                        5 => callg("probe1", vec![num(2.0)]),
+                        _ => self.small_pos(),
+                    }
+                } else if matches!(op, BinOp::Mod | BinOp::Pow) {
+                    self.small_pos()
+                } else {
+                    self.e_num(d - 1)
+                };
                 bin(op, a, b)
             }
             3 => un(UnOp::Neg, self.e_num(d - 1)),
@@ -443,7 +460,11 @@ impl<'a, 'b> Gen<'a, 'b> {
                         1 => self.small_int(),
                         2 => self.e_bool(d - 1),
                         3 => {
-                            if let Some(v) = self.pick_var(|v| v.kind == Kind::Obj) {
+                            if self.o.avoid.interp_tostring_order && i + 1 != n {
+                                self.stat("avoided_interp_tostring_order");
+                                Expr::Nil
+                            } else if let Some(v) = self.pick_var(|v| v.kind == Kind::Obj) {
+                                self.stat("interp_object");
                                 nm(&v.name)
                             } else {
                                 Expr::Nil
@@ -583,7 +604,32 @@ impl<'a, 'b> Gen<'a, 'b> {
                     Expr::Nil
                 }
             }
-            _ => self.e_table(d - 1).0,
+            _ => {
+                if self.o.luau && self.t.bool(150) {
+                    // if-expression with falsy / nil results, elseif chains, calls as branches
+                    self.stat("if_expr");
+                    let n = 1 + self.t.weighted(&[6, 2]);
+                    let mut clauses = vec![];
+                    for _ in 0..n {
+                        let c = self.cond(d - 1);
+                        let v = self.if_branch(d - 1);
+                        clauses.push((c, v));
+                    }
+                    let else_ = self.if_branch(d - 1);
+                    Expr::IfExpr { clauses, else_: Box::new(else_) }
+                } else {
+                    self.e_table(d - 1).0
+                }
+            }
+        }
+    }
+
+    fn if_branch(&mut self, d: usize) -> Expr {
+        match self.t.choose(6) {
+            0 => Expr::Nil,
+            1 => Expr::False,
+            2 => self.multi(d),
+            _ => self.e_any(d),
         }
     }
 
@@ -964,6 +1010,7 @@ impl<'a, 'b> Gen<'a, 'b> {
         let in_loop = self.loop_depth > 0;
         let luau = self.o.luau;
         let refac = self.o.focus == Focus::Refactor;
+        let lower = self.o.focus == Focus::Lowering;
         let w = [
             10,                                   // 0 local declaration
             6,                                    // 1 emit
@@ -977,9 +1024,9 @@ impl<'a, 'b> Gen<'a, 'b> {
             if nested_ok { if refac { 8 } else { 4 } } else { 0 }, // 9 local function
             if nested_ok { 4 } else { 0 },        // 10 function statement on a table / global
             3,                                    // 11 call statement
-            if in_loop { 3 } else { 0 },          // 12 break / continue (guarded)
+            if in_loop { if lower { 7 } else { 3 } } else { 0 }, // 12 break / continue (guarded)
             if self.fns.is_empty() { 0 } else { 2 }, // 13 early return (guarded)
-            if luau { 4 } else { 0 },             // 14 compound assignment
+            if luau { if lower { 9 } else { 4 } } else { 0 }, // 14 compound assignment
             2,                                    // 15 object creation / metamethod statement
             if nested_ok { 2 } else { 0 },        // 16 pcall / error
             if refac { 6 } else { 2 },            // 17 method call statement
